@@ -17,10 +17,10 @@ func init() {
 		DesignRef: "DESIGN.md §5 C49",
 		Level: "Decides that no field of a configuration struct is hidden from YAML (`yaml:\"-\"`) unless its type has a MarshalYAML that re-emits it (the two service-discovery holders), that every type with such a MarshalYAML also has the UnmarshalYAML that reads the inline form, " +
 			"and that the global scrape timeout, which is validated against the scrape interval before its default is filled in, gets a default that is bounded by the interval (so the printed global section passes the validation it was loaded with).",
-		Note:     "Trusted: go/packages, go/types, go/cfg; rule tables in checker/c49.go.",
-		Covers:   "struct tags of all structs in package config; ScrapeConfig / AlertmanagerConfig MarshalYAML/UnmarshalYAML; GlobalConfig.UnmarshalYAML order of interval default, timeout validation and timeout default.",
-		NotCover: "equality of the reloaded configuration (values), secrets, discovery-specific config types.",
-		Run:      runC49,
+		Note:           "Trusted: go/packages, go/types, go/cfg; rule tables in checker/c49.go.",
+		Covers:         "struct tags of all structs in package config; ScrapeConfig / AlertmanagerConfig MarshalYAML/UnmarshalYAML; GlobalConfig.UnmarshalYAML order of interval default, timeout validation and timeout default.",
+		NotCover:       "equality of the reloaded configuration (values), secrets, discovery-specific config types.",
+		Run:            runC49,
 		MinObligations: 8,
 	})
 }
